@@ -1063,6 +1063,37 @@ func c03ErrClass(err error) string {
 	return "other"
 }
 
+// c03SigReader / c03SigClass coarsen reader kind and response class to what
+// can be necessary for a root cause: which checking path delivered the bytes,
+// and in which way the response was wrong. The exact kinds go in the detail.
+func c03SigReader(r string) string {
+	switch r {
+	case "get-read", "get-readall":
+		return "stream-read"
+	case "get-copy", "get-writeto":
+		return "stream-writeto"
+	case "get-early":
+		return "stream-closed-early"
+	}
+	return r
+}
+
+func c03SigClass(c string) string {
+	switch c {
+	case "flip", "chunked-flip":
+		return "same-length-wrong-content"
+	case "short", "long", "clmis", "chunked-short", "chunked-long", "eof-short":
+		return "wrong-length-complete-framing"
+	case "declong", "declhuge", "chunked-cut":
+		return "cut-before-declared-end"
+	case "ok", "chunked-ok", "eof-ok":
+		return "good-response"
+	case "reset0", "reset1", "reset2":
+		return "reset"
+	}
+	return c
+}
+
 // judge applies R1/R2 to one result. class is the class of the 200 response
 // consumed by the operation ("" if none / not attributable).
 func (e *c03Env) judge(res c03Res, class string, bad200 bool) {
@@ -1106,12 +1137,12 @@ func (e *c03Env) judge(res c03Res, class string, bad200 bool) {
 	case res.atEnd && res.off <= len(res.ref) && res.off+len(res.got) != len(res.ref):
 		wrong = fmt.Sprintf("end of data signalled after %d of %d bytes", res.off+len(res.got), len(res.ref))
 		if res.reader == "file" {
-			run.Violation("C03:R1:file:eof-before-true-end:"+class, fmt.Sprintf("File.Read: %s (err=%v)", wrong, res.err), e.c)
+			run.Violation("C03:R1:file:eof-before-true-end:"+c03SigClass(class), fmt.Sprintf("File.Read: %s (err=%v); response consumed: %s", wrong, res.err, class), e.c)
 			return
 		}
 	}
 	if wrong != "" {
-		run.Violation("C03:R1:"+res.reader+":success-with-wrong-bytes:"+class,
+		run.Violation("C03:R1:"+c03SigReader(res.reader)+":success-with-wrong-bytes:"+c03SigClass(class),
 			fmt.Sprintf("%s reported success (err=%v, closed early=%v) but %s; response consumed: %s", res.reader, res.err, res.partial, wrong, class), e.c)
 		return
 	}
@@ -1121,7 +1152,7 @@ func (e *c03Env) judge(res c03Res, class string, bad200 bool) {
 			run.Count("closed_early_nil_on_bad_response", 1)
 			return
 		}
-		run.Violation("C03:R2:"+res.reader+":bad-response-read-succeeded:"+class,
+		run.Violation("C03:R2:"+c03SigReader(res.reader)+":bad-response-read-succeeded:"+c03SigClass(class),
 			fmt.Sprintf("%s reported success (err=%v, %d bytes at %d) although the 200 response it consumed was bad (%s)", res.reader, res.err, len(res.got), res.off, class), e.c)
 	}
 }
@@ -1170,7 +1201,7 @@ func (e *c03Env) inspectCache(lastClass []string) []bool {
 		if lastClass != nil && lastClass[x.blk] != "" {
 			cl = lastClass[x.blk]
 		}
-		e.run.Violation("C03:R3:cache-entry-differs-from-block:"+cl,
+		e.run.Violation("C03:R3:cache-entry-differs-from-block:"+c03SigClass(cl),
 			fmt.Sprintf("BlockCache holds an error-free entry for block %d of %d bytes (true size %d), first difference at byte %d; last 200 response for it: %s", x.blk, x.n, len(e.data[x.blk]), x.diff, cl), e.c)
 	}
 	return have
@@ -1418,10 +1449,10 @@ func c03Execute(run *verifkit.Run, pool *c03Pool, c *c03Case, tally *c03Tally) {
 			run.Count("healed_reads", 1)
 			e.tally.healed++
 			if !res.success {
-				run.Violation("C03:R3:healed-read-failed:"+r.Kind,
+				run.Violation("C03:R3:healed-read-failed:"+c03SigReader(r.Kind),
 					fmt.Sprintf("with every service answering correctly, %s of block %d failed: %v (last 200 response before: %q)", r.Kind, b, res.err, lastClass[b]), c)
 			} else if !bytes.Equal(res.got, e.data[b]) {
-				run.Violation("C03:R3:healed-read-wrong-bytes:"+r.Kind,
+				run.Violation("C03:R3:healed-read-wrong-bytes:"+c03SigReader(r.Kind),
 					fmt.Sprintf("with every service answering correctly, %s of block %d delivered %d bytes ≠ block (%d bytes); last 200 response before: %q", r.Kind, b, len(res.got), len(e.data[b]), lastClass[b]), c)
 			}
 		}
